@@ -189,6 +189,14 @@ func sectionEvents(p *core.Program, u flow.FuncUnit, isWriter bool) (evs []ioEve
 				}
 				return true
 			}
+			// r.Read(buf): may legally return fewer bytes than len(buf)
+			if sel, ok := ast.Unparen(call.Fun).(*ast.SelectorExpr); ok && isStream(sel.X) && fn.Name() == "Read" && len(call.Args) == 1 {
+				problems = append(problems, fmt.Sprintf("the header word at %s is read with Reader.Read, which may return fewer bytes than requested (a reader that delivers the header in fragments leaves stale bytes in the buffer and misaligns every later section); io.ReadFull is required", p.Pos(call.Pos())))
+				if bv := baseIdentVar(info, call.Args[0]); bv != nil {
+					bufRead[bv] = true
+				}
+				return true
+			}
 			// io.ReadFull(r, buf)
 			if (full == "io.ReadFull" || full == "io.ReadAtLeast") && len(call.Args) >= 2 && isStream(call.Args[0]) {
 				if bv := baseIdentVar(info, call.Args[1]); bv != nil {
@@ -535,6 +543,45 @@ func checkC11(p *core.Program, r *core.Report) {
 			r.Check(len(problems) == 0, "O11.3", cn, p.Pos(call.Pos()), "writes the constructed/loaded system to the file created from --output", strings.Join(problems, "; "))
 			return true
 		})
+	}
+	// a command that both loads a system and creates an output file must finish loading first: os.Create truncates, and
+	// --output may name the input file (in-place conversion)
+	for _, c := range cliCommands(p) {
+		if c.Action.Node == nil {
+			continue
+		}
+		info := c.Pkg.TypesInfo
+		var loads, creates []*ast.CallExpr
+		ast.Inspect(c.Action.Node, func(n ast.Node) bool {
+			if call, ok := n.(*ast.CallExpr); ok {
+				if fn, _ := typeutil.Callee(info, call).(*types.Func); fn != nil {
+					if loaderObjs[fn.Origin()] {
+						loads = append(loads, call)
+					}
+					if fn.FullName() == "os.Create" || fn.FullName() == "os.OpenFile" {
+						creates = append(creates, call)
+					}
+				}
+			}
+			return true
+		})
+		if len(loads) == 0 || len(creates) == 0 {
+			continue
+		}
+		g := flow.NewGraph(c.Action)
+		for _, cr := range creates {
+			lc, ok1 := g.Locate(cr)
+			okAll := ok1
+			for _, ld := range loads {
+				ll, ok2 := g.Locate(ld)
+				if !ok2 || !g.LocDominates(ll, lc) {
+					okAll = false
+				}
+			}
+			r.Count("load-then-create sites", 1)
+			r.Check(okAll, "O11.3", "main.cmd:"+c.Name+": input loaded before the output file is created", p.Pos(cr.Pos()), "the loader call dominates os.Create",
+				"the output file is created (and truncated) before the proving system has been loaded: converting a file in place (--output naming the input) destroys it and the command fails with EOF")
+		}
 	}
 	r.Count("CLI write sites", nWrite)
 	r.Count("CLI read sites", nRead)
